@@ -295,3 +295,20 @@ func VP_C07_data_id_count() {
 	vp.AssertUnless("KF-C07-3", cnt > 16384, dev.firstLen == want, "index has one pointer per 2048 ids")
 	vp.Cover("id index length")
 }
+
+// VP_C07_data_fragment_count: for any fragment count the reader fetches an index of one 8-byte
+// pointer per 512 fragment entries (one 8 KiB metadata block) - the layout writeFragmentTable
+// produces - no more and no fewer.
+func VP_C07_data_fragment_count() {
+	cnt := vp.U32("fragcount")
+	vp.Assume(cnt >= 1)
+	vp.Assume(cnt <= 8192)
+	vp.AllocCap(136)
+	dev := &c07LenDev{}
+	_, err := readFragmentTable(&superblock{fragmentCount: cnt, fragmentTableStart: 1 << 20}, dev, nil)
+	vp.Assert(err != nil, "the failing device is reported")
+	vp.Assert(dev.firstOff == 1<<20, "index is read at the table start")
+	want := 8 * ((int(cnt) + 511) / 512)
+	vp.Assert(dev.firstLen == want, "index has one pointer per 512 fragments")
+	vp.Cover("fragment index length")
+}
